@@ -90,10 +90,22 @@ def run_histories(ctx: Ctx):
                     break
                 c0 = rng.choice(m0); comp.activate_index(tuple(c0[:na]), tuple(c0[na:])); pre.add(c0)
             comp.clear(); td.clear(); comp.model_costs.clear(); log.clear(); f.shift['v'] = 1.5; batches.clear()
-        case = {'history': n, 'nx': nx, 'na': na, 'kpl': kpl, 'levels': levels, 'cost_mode': cost_mode, 'adaptive': adaptive}
+            if rng.random() < 0.6:      # ... and a moved input domain: every later evaluation lies inside the domain then in force
+                k0 = rng.randrange(nx)
+                lo0, hi0 = doms[k0]; sh = rng.choice([2.0, -3.0]) * (hi0 - lo0)
+                comp.inputs[names[k0]].update_domain((lo0 + sh, hi0 + sh), override=True)
+                doms[k0] = (lo0 + sh, hi0 + sh)
+        case = {'history': n, 'nx': nx, 'na': na, 'kpl': kpl, 'levels': levels, 'cost_mode': cost_mode, 'adaptive': adaptive, 'domains': [list(d_) for d_ in doms]}
         nsteps = rng.randint(2, 7 if nx < 3 else 4)
         active = set()
         calls_per_batch = []
+        # a third of the scripted histories evaluate their batches (mixed fidelities) through an executor that completes in a random order
+        ex = saved_wait = None
+        if not adaptive and rng.random() < 0.33:
+            import c15, random as _random
+            ex = c15.SchedExecutor(lambda m, _r=_random.Random(rng.getrandbits(30)): _r.sample(range(m), m))
+            saved_wait = c15.install_wait(ex)
+            case['executor'] = True
         try:
             for step in range(nsteps):
                 n0 = len(log)
@@ -109,7 +121,7 @@ def run_histories(ctx: Ctx):
                     if not m:
                         batches.pop(); break
                     c = rng.choice(m)
-                    comp.activate_index(tuple(c[:na]), tuple(c[na:]))
+                    comp.activate_index(tuple(c[:na]), tuple(c[na:]), executor=ex)
                     active.add(c)
                     if rng.random() < 0.3:      # requests that must be ignored: already active (incl. the all-zero index), not a candidate
                         nb = len(batches)
@@ -127,6 +139,9 @@ def run_histories(ctx: Ctx):
             ctx.violate('C09:training-raises', f'{type(e).__name__}: {e}', case); continue
         finally:
             td.refine = orig_refine
+            if saved_wait is not None:
+                import c15
+                c15.restore_wait(saved_wait)
         case['batches'] = [[list(a) + list(b) for a, b in bt] for bt in batches]
         ctx.case(case, nontrivial=len(log) >= 3, kind=f'nx={nx}:{"adaptive" if adaptive else "scripted"}')
         ctx.count('model_calls', len(log))
@@ -195,6 +210,8 @@ def run_histories(ctx: Ctx):
                 out.append(j)
             return out
         impl_evals = [[list(alpha), coord_of(x)] for alpha, x, c in log]
+        if ex is not None:
+            continue        # the call order inside a batch follows the completion order: only the oracles above apply
         lines.append('grid_run ' + enc([kpl, 1, [0] * nx, [[[list(a), list(b[:nx])] for a, b in bt] for bt in batches]]))
         meta.append((case, impl_evals))
     for (case, impl_evals), mo in zip(meta, run_model(lines, shards=8) if lines else []):
